@@ -14,7 +14,7 @@
    of the smallest distance. *)
 From FrameModel Require Import Num.QcTac Geometry.Rect Stog.CreateStog Stog.StogStable
   Yaml.Tree Yaml.NetlistRead Yaml.NetlistWrite Yaml.NetlistRoundTrip Yaml.NetlistImage
-  Yaml.NetlistReadForms.
+  Yaml.NetlistReadForms Yaml.NetlistWriteArea.
 Open Scope Qc_scope.
 
 (* reading what was written gives the same modules in the same order (names,
@@ -75,6 +75,14 @@ Theorem C04_net_round_trip : forall names e,
   wf_net names e -> parse_edge (write_net e) = Ok (n_members e, n_weight e).
 Proof. exact parse_write_net. Qed.
 Print Assumptions C04_net_round_trip.
+
+(* a soft module with two or more regions is written with every region and its own area,
+   whatever the magnitudes (a ground area of 4e17 or 2^53 next to regions of 12 or 1 - a
+   binary64 sum of the areas would give the ground area again: the writer never looks at the total) *)
+Theorem C04_write_area_keeps_regions : forall a,
+  (2 <= List.length a)%nat -> write_area a = area_mapping a.
+Proof. exact write_area_keeps_regions. Qed.
+Print Assumptions C04_write_area_keeps_regions.
 
 (* every module the reader builds is well formed, whatever the order of its attributes *)
 Theorem C04_parsed_module_wf : forall name t m, parse_module name t = Ok m -> wf_module m.
